@@ -12,6 +12,12 @@ package main
 // by any lemma other than the two about DataMessage.ToBytes.
 func init() {
 	registerAbstractBytes2("internal/wire", "Body")
+	// AdoptBody(b) is the Body holding exactly b; discharged for its implementation rawFrameBody by
+	// translating rawFrameBody.Len / AppendTo (lemmas bridge_rawFrameBody_* in Bridge2Frames.v).
+	registerAbstractCtor2("internal/wire", "AdoptBody")
+	register2("internal/wire", []string{"rawFrameBody.Len", "rawFrameBody.AppendTo"})
+	// hsms.Message is implemented by *DataMessage and *ControlMessage only (plus test doubles).
+	registerSum2("hsms", "Message", []string{"*DataMessage", "*ControlMessage"})
 	register2("hsms", []string{
 		"IsValidSType", "ToSystemBytes", "FromSystemBytes",
 		"ControlMessage.Type", "ControlMessage.SessionID", "ControlMessage.SystemBytes", "ControlMessage.HeaderBytes",
@@ -23,5 +29,8 @@ func init() {
 		"DataMessage.Stream", "DataMessage.Function", "DataMessage.WaitBit", "DataMessage.ID",
 		"DataMessage.WithSessionID", "DataMessage.WithSystemBytes", "DataMessage.WithID",
 		"isSecondaryReply",
+		"DataMessage.Type",
+		"newRawFrameDataMessage", "decodeOwnedFrame", "DecodeHSMSMessage", "DecodeHSMSPayload", "DecodeOwnedHSMSPayload",
+		"NewRejectReq", "GetRejectReasonCode", "ControlMessage.RejectReasonCode",
 	})
 }
